@@ -4,6 +4,7 @@ import (
 	"bytes"
 	"encoding/json"
 	"fmt"
+	"io"
 	"math/rand"
 	"os"
 	"sync"
@@ -79,7 +80,11 @@ func runAlone(g AloneCfg, calls []aloneCall, data []byte) AloneRun {
 	var buf bytes.Buffer
 	var w *lzma.Writer
 	var err error
-	res.Panic = safely(func() { w, err = g.lib().NewWriter(&buf) })
+	var target io.Writer = &buf // bytes.Buffer is also an io.ByteWriter
+	if (len(data)+len(calls))%2 == 1 {
+		target = onlyWriter{&buf}
+	}
+	res.Panic = safely(func() { w, err = g.lib().NewWriter(target) })
 	if res.Panic != nil || err != nil {
 		return res
 	}
